@@ -115,6 +115,7 @@ package larking
 //@   ensures [header] err == nil ==> VarintAt(rdS(r), g0, hv) && n == VarintVal(rdS(r)[g0:], hv)
 //@   ensures [conserve] err == nil ==> 0 <= Hdr(dst, r, g0) && Hdr(dst, r, g0) <= 10 && Buffered(dst, r, g0 + Hdr(dst, r, g0))
 //@   ensures [err-nomsg] err != nil ==> n == 0
+//@   ensures [too-large-only-over-limit] errtype(err, "*protodelim.SizeTooLargeError") ==> VarintVal(rdS(r)[g0:], hv) > limit
 //@   ensures [clean-eof] err == io.EOF ==> len(dst) == 0
 //@   oracle (n >= 0 && n <= len(dst)) && (err != io.EOF || len(dst) == 0)
 //@   assert at "if n < 0 {" [varint] n#2 >= 0 ==> VarintAt(rdS(r), g0, n#2) && size == VarintVal(rdS(r)[g0:], n#2) && n#2 <= len(b)
@@ -146,6 +147,7 @@ package larking
 //@   ensures [conserve] Buffered(dst, r, g0)
 //@   ensures [frame] err == nil ==> n >= 1 && JDep(rdS(r), g0, n) == 0 && !JStr(rdS(r), g0, n-1) && !JEsc(rdS(r), g0, n-1) && rdS(r)[g0+n-1] == 125
 //@   ensures [err-nomsg] err != nil ==> n == 0
+//@   ensures [too-large-only-at-limit] errtype(err, "*protodelim.SizeTooLargeError") ==> len(dst) >= limit
 //@   ensures [clean-eof] err == io.EOF ==> JDep(rdS(r), g0, len(dst)) == 0
 //@   oracle (n >= 0 && n <= len(dst)) && (err != io.EOF || verifJSONDepth(dst) == 0)
 //@   loop 1 invariant 0 <= i && i <= limit && i <= len(b) && Buffered(b, r, g0)
@@ -154,3 +156,45 @@ package larking
 //@   loop 2 invariant 0 <= i && i < limit && i <= len(b) && Buffered(b, r, g0)
 //@   loop 2 invariant JScan(rdS(r), g0, i, braceCount, isString, isEscaped) && 0 <= braceCount && braceCount <= i
 //@   loop 2 decreases i + 1 - len(b) assuming ReaderProgress
+
+// Writers: wrout(w) is everything written to w so far, wrlen(w) its length.
+//@ spec Appended(w, b, at) = forall k :: 0 <= k && k < len(b) ==> wrout(w)[at + k] == b[k]
+
+//@ func (CodecJSON).WriteNext serves C17 C06
+//@   returns (n, err)
+//@   requires w != nil
+//@   ensures [whole] err == nil ==> n == len(b) && wrlen(w) == old(wrlen(w)) + len(b) && Appended(w, b, old(wrlen(w)))
+
+//@ func (codecHTTPBody).WriteNext serves C17 C06
+//@   returns (n, err)
+//@   requires w != nil
+//@   ensures [whole] err == nil ==> n == len(b) && wrlen(w) == old(wrlen(w)) + len(b) && Appended(w, b, old(wrlen(w)))
+
+//@ func (CodecProto).WriteNext serves C17 C06
+//@   returns (n, err)
+//@   requires w != nil
+//@   ghost at "if _, err := w.Write(sizeBuf); err != nil {" hv = len(sizeBuf)
+//@   ensures [prefix] err == nil ==> VarintAt(wrout(w), old(wrlen(w)), hv) && VarintVal(wrout(w)[old(wrlen(w)):], hv) == len(b)
+//@   ensures [payload] err == nil ==> n == len(b) && wrlen(w) == old(wrlen(w)) + hv + len(b) && Appended(w, b, old(wrlen(w)) + hv)
+
+// ---------------------------------------------------------------------------
+// mux.go
+
+//@ func (*muxOptions).readAll serves C08 C06 C09
+//@   returns (dst, err)
+//@   ghost g0 = rdpos(r) - len(b)
+//@   requires o != nil && r != nil && Buffered(b, r, g0)
+//@   requires o.maxReceiveMessageSize >= 0
+//@   ensures [refused-only-over-limit] dst == nil ==> rdpos(r) - old(rdpos(r)) > o.maxReceiveMessageSize
+//@   ensures [within-limit] dst != nil ==> rdpos(r) - old(rdpos(r)) <= o.maxReceiveMessageSize && err != nil
+//@   ensures [conserve] dst != nil ==> Buffered(dst, r, g0)
+//@   loop 1 invariant Buffered(b, r, g0) && total == rdpos(r) - old(rdpos(r)) && 0 <= total && total <= o.maxReceiveMessageSize
+//@   loop 1 decreases o.maxReceiveMessageSize + 1 - total assuming ReaderProgress
+
+//@ func (*muxOptions).writeAll serves C08 C04
+//@   returns (err)
+//@   requires o != nil && dst != nil
+//@   deadcode "return io.ErrShortWrite"
+//@   ensures [refused-iff-over-limit] len(b) > o.maxSendMessageSize ==> err != nil && wrlen(dst) == old(wrlen(dst))
+//@   ensures [whole] err == nil ==> len(b) <= o.maxSendMessageSize && wrlen(dst) == old(wrlen(dst)) + len(b) && Appended(dst, b, old(wrlen(dst)))
+//@   ensures [within-limit-attempted] len(b) <= o.maxSendMessageSize ==> wrcalls(dst) == old(wrcalls(dst)) + 1
